@@ -79,6 +79,67 @@ CHECKS.update({
         ref="4/C20"),
 })
 
+CHECKS.update({
+    "C04": dict(
+        technique="Lean 4 proof (weighted-histogram model over any ordered field) + exact Rat correspondence + float search",
+        text="Theorems in exact arithmetic: linspace / width edges are strictly increasing and cover the data (bin count "
+             "max(ceil((stop-start)/w),1)), every covered value gets the index of the bin whose half-open interval (last closed) "
+             "contains it, histogram conserves total weight, rebin by range / by mean conserves total count and count-weighted sum "
+             "of the other quantity for every n >= 1 and w > 0, mid-points, empty bins (count 0, nan), mesh total and both "
+             "marginals = the one-dimensional re-binnings. Tied to rebin/mesh/_create_bins by Rat correspondence; float edge "
+             "construction searched with adversarial decimal widths.",
+        note=TB + "np.histogram / histogram2d bin rules modelled. Floating-point edge construction is outside the theorems (searched).",
+        ref="4/C04"),
+    "C08": dict(
+        technique="Lean 4 proof (coherence invariant by induction over operation histories of a registry state machine) + history correspondence with the real TsDB",
+        text="Theorems about the four-register state machine (load/add/rename/clear/update/copy/getm on two databases, abstract "
+             "series identities): every operation keeps both databases coherent, hence every history does; size = number of keys "
+             "and every key has an entry in each register; a rejected operation leaves its database unchanged (only the source "
+             "of update may have cached data); store=False leaves nothing behind, store=True returns the very same objects "
+             "afterwards; copies have the selected keys/parents/indices, deep copies share no object. The model is compared with "
+             "the real objects after every operation of seeded and enumerated histories.",
+        note=TB + "Series data and file reading are abstracted (C01). Name resolution is C09's model.",
+        ref="4/C08"),
+    "C09": dict(
+        technique="Lean 4 proof (string-level model of str.replace / fnmatch / os.path; escaping theorem for all strings) + correspondence with TsDB.list/get/in/common",
+        text="Theorems: the three-step replacement with the ':[:' detour is character-wise escaping for every string; fnmatch of the "
+             "escaped pattern = shell matching where only * and ? are special (for all patterns and keys); listing = for each "
+             "pattern in order the registered keys in registration order that match; common path is a string prefix of every "
+             "normalised key; every key selects itself uniquely by its full key; get / in agree with the listing; selection by "
+             "the listed relative name is unambiguous when no other key ends in '/<name>' (partial) with a machine-checked "
+             "counterexample otherwise (F18) and the single-series-with-unit-brackets case by computation.",
+        note=TB + "fnmatch character ranges not modelled (patterns always reach fnmatch escaped); POSIX paths.",
+        ref="4/C09"),
+    "C10": dict(
+        technique="Lean 4 proof (ownership/provenance step model; schedule independence of read-only computations) + dynamic correspondence (snapshots, np.shares_memory, real threads)",
+        text="Theorems: for all 72 option combinations get() writes no stored array in place and returns none; minima's in-place "
+             "flip hits a fresh array (and would hit the stored one without the defensive copy); computations that only read a "
+             "shared store end, after ANY schedule, in the state of their own sequential execution; a copy equals its source "
+             "field by field and owns new arrays. Tied dynamically: bit-for-bit snapshots around every query x option "
+             "combination, aliasing tags vs np.shares_memory, threads vs sequential results, vars(copy) == vars(original).",
+        note=TB + "Aliasing and threads are properties of the CPython runtime: observed, not proved.",
+        ref="4/C10"),
+    "C11": dict(
+        technique="Lean 4 proof (pipeline model with abstract stages over any ordered field) + exact Rat correspondence with tag-function stages + float search",
+        text="Theorems: a window returns exactly the in-window samples in order; interpolation reproduces nodes, is the linear "
+             "interpolant (convex combination) between them, has no value outside the span and always one inside; the step grid "
+             "has round((t1-t0)/d)+1 equidistant points from first to last sample with |k-(t1-t0)/d| <= 1/2; no options = "
+             "identity; stage order window/resample/taper/filter/smooth with the filter receiving t'[1]-t'[0]; array resampling "
+             "returns that array or fails, never with a window; equal lengths; stand-alone resampling succeeds with all new "
+             "times inside the span. Stage functions are patched by non-commuting tags on both sides of the correspondence.",
+        note=TB + "interp1d / linspace / arange / round semantics modelled. Float grids searched (F7 fixed).",
+        ref="4/C11"),
+    "C14": dict(
+        technique="Lean 4 proof (single-pass scan invariant; exact characterisation of global and local maxima over any ordered field) + exhaustive Rat correspondence",
+        text="Theorems: (i,v) is reported as global maximum iff it is the first-position largest value of an excursion above the "
+             "mean closed on both sides; positions strictly increase; local maxima are exactly the interior peaks; every global "
+             "maximum value is a local maximum of the same excursion; result = raw maxima not below the threshold, as a "
+             "permutation, ascending, values at positions; positive affine maps keep positions; minima mirror maxima. Tied by "
+             "exhaustive correspondence on all signals over {0..3} up to length 7 (9 thorough) + random ones.",
+        note=TB + "The float mean is exact on the integer / dyadic inputs used.",
+        ref="4/C14"),
+})
+
 NOT_YET = {}
 
 PROPS = [json.loads(l) for l in open(os.path.join(HERE, "properties.jsonl"))]
